@@ -1279,8 +1279,7 @@ def run(chk):
                 continue
             cases.append(case_lit(cid, oplit, d["arrays"], c_out, cplx or (out[0] == "ok" and np.iscomplexobj(out[1]))))
             meta.append((d, be))
-            if (d["fn"] == "multi_mode_dot" and d["opts"]["modes"] is None and di % 3 == 0
-                    and len(d["arrays"]) - 1 <= np.asarray(d["arrays"][0]).ndim):
+            if d["fn"] == "multi_mode_dot" and d["opts"]["modes"] is None and di % 3 == 0:
                 # a third of the modes=None calls also go to the natural-number routines (modes = None) of the index-formula theorems
                 cid = len(cases)
                 nat_lit = f"(OMulti {C.boolc(be == 'einsum')} None {opt_nat(d['opts']['skip'])} {C.boolc(d['opts']['transpose'])})"
